@@ -31,77 +31,92 @@ theorem cachePageLimit_ok (dbg : Bool) (size : Nat) (h : size * 1024 * 1024 ≤ 
 
 variable {P : Type}
 
+/-- the limit `make_shards` gives a shard of `count` root children: at least one page -/
+def shardLimit (perChild count : Nat) : Nat := if perChild * count = 0 then 1 else perChild * count
+
 /-- what a fresh shard list looks like -/
 def freshShards (n perChild : Nat) : List (Shard P) :=
   (List.range n).map fun i =>
-    { fixed := [], cached := Lru.unbounded, pageLimit := perChild * (Shards.region n i).2, count := (Shards.region n i).2 }
+    { fixed := [], cached := Lru.unbounded, pageLimit := shardLimit perChild (Shards.region n i).2,
+      count := (Shards.region n i).2 }
 
-theorem makeShardsPages_ok (n limit : Nat) (h1 : 1 ≤ n) (h64 : n ≤ 64) (hl : 64 ≤ limit) :
-    makeShardsPages (P := P) n limit = .ok (freshShards n (limit / 64)) := by
-  have htab := cacheTable n h1 h64
-  simp only [cacheTableOk, Bool.and_eq_true, List.all_eq_true, List.mem_range, decide_eq_true_eq] at htab
-  obtain ⟨⟨⟨hreg, hcnt⟩, _⟩, _⟩ := htab
-  have hn0 : n ≠ 0 := by omega
-  have hregs : shardRegions n = .ok ((List.range n).map (Shards.region n)) := by
-    split at hreg
-    · rename_i rs hrs; rw [hrs]; simp at hreg; rw [hreg]
-    · simp at hreg
-  simp only [makeShardsPages, hn0, if_false, hregs]
-  rw [mapO_ok _ (fun r => ({ fixed := [], cached := Lru.unbounded, pageLimit := limit / 64 * r.2, count := r.2 } : Shard P))]
-  · simp [freshShards, List.map_map, Function.comp_def]
-  · intro r hr
-    simp only [List.mem_map, List.mem_range] at hr
-    obtain ⟨i, hi, rfl⟩ := hr
-    have hc := hcnt i hi
-    have hp : 1 ≤ limit / 64 := by omega
-    have : limit / 64 * (Shards.region n i).2 ≠ 0 := Nat.mul_ne_zero (by omega) (by omega)
-    simp [this]
-
-theorem makeShardsPages_zero (n limit : Nat) (h1 : 1 ≤ n) (h64 : n ≤ 64) (hl : limit < 64) :
-    ∃ m, makeShardsPages (P := P) n limit = .panic m := by
+theorem shardRegions_eq (n : Nat) (h1 : 1 ≤ n) (h64 : n ≤ 64) :
+    shardRegions n = .ok ((List.range n).map (Shards.region n)) := by
   have htab := cacheTable n h1 h64
   simp only [cacheTableOk, Bool.and_eq_true, List.all_eq_true, List.mem_range, decide_eq_true_eq] at htab
   obtain ⟨⟨⟨hreg, _⟩, _⟩, _⟩ := htab
+  split at hreg
+  · rename_i rs hrs; rw [hrs]; simp at hreg; rw [hreg]
+  · simp at hreg
+
+/-- the repaired `make_shards` is total for 1…64 shards and EVERY page budget, 0 included -/
+theorem makeShardsPages_ok (n limit : Nat) (h1 : 1 ≤ n) (h64 : n ≤ 64) :
+    makeShardsPages (P := P) {} n limit = .ok (freshShards n (limit / 64)) := by
   have hn0 : n ≠ 0 := by omega
-  have hregs : shardRegions n = .ok ((List.range n).map (Shards.region n)) := by
-    split at hreg
-    · rename_i rs hrs; rw [hrs]; simp at hreg; rw [hreg]
-    · simp at hreg
+  simp only [makeShardsPages, hn0, if_false, shardRegions_eq n h1 h64]
+  rw [mapO_ok _ (fun r => ({ fixed := [], cached := Lru.unbounded, pageLimit := shardLimit (limit / 64) r.2, count := r.2 } : Shard P))]
+  · simp [freshShards, List.map_map, Function.comp_def]
+  · intro r _
+    by_cases h : limit / 64 * r.2 = 0 <;> simp [shardLimit, h]
+
+/-- finding F25: the code before the repair unwraps a zero limit -/
+theorem makeShardsPages_zero_f25 (n limit : Nat) (h1 : 1 ≤ n) (h64 : n ≤ 64) (hl : limit < 64) :
+    ∃ m, makeShardsPages (P := P) { f25ZeroLimitUnwrap := true } n limit = .panic m := by
+  have hn0 : n ≠ 0 := by omega
   have hz : limit / 64 = 0 := Nat.div_eq_of_lt hl
   obtain ⟨k, rfl⟩ : ∃ k, n = k + 1 := ⟨n - 1, by omega⟩
   refine ⟨"NonZeroUsize::new(page_limit).unwrap()", ?_⟩
-  simp only [makeShardsPages, hn0, if_false, hregs, hz, Nat.zero_mul]
+  simp only [makeShardsPages, hn0, if_false, shardRegions_eq _ h1 h64, hz, Nat.zero_mul]
   rw [List.range_succ_eq_map, List.map_cons]
   exact mapO_panic_head _ _ _ _ (by simp)
 
-/-- **`PageCache::new` on a valid configuration** (1…64 shards, 1 MiB ≤ size < 16 EiB): no panic; the cache is empty
-apart from the root slot, and the shard limits add up to the configured budget rounded down to a multiple of 64 pages -/
+/-- **`PageCache::new` on a valid configuration** (1…64 shards, any size < 16 EiB, 0 included): no panic; the cache is
+empty apart from the root slot; every shard may hold at least one page -/
 theorem PageCache.new_ok (dbg : Bool) (root : Option (Entry P)) (n size fl : Nat) (h1 : 1 ≤ n) (h64 : n ≤ 64)
-    (hs1 : 1 ≤ size) (hs : size * 1024 * 1024 ≤ usizeMax) :
-    PageCache.new dbg root n size fl =
+    (hs : size * 1024 * 1024 ≤ usizeMax) :
+    PageCache.new {} dbg root n size fl =
       .ok { shards := freshShards n (size * 256 / 64), root := root, fixedLevels := fl } := by
-  simp only [PageCache.new, makeShards, cachePageLimit_ok dbg size hs,
-    makeShardsPages_ok n (size * 256) h1 h64 (by omega)]
+  simp only [PageCache.new, makeShards, cachePageLimit_ok dbg size hs, makeShardsPages_ok n (size * 256) h1 h64]
 
-/-- **`PageCache::new` with `page_cache_size = 0` panics** (`NonZeroUsize::new(0).unwrap()` in `make_shards`) -/
-theorem PageCache.new_size0_panics (dbg : Bool) (root : Option (Entry P)) (n fl : Nat) (h1 : 1 ≤ n) (h64 : n ≤ 64) :
-    ∃ m, PageCache.new dbg root n 0 fl = .panic m := by
-  obtain ⟨m, hm⟩ := makeShardsPages_zero (P := P) n 0 h1 h64 (by omega)
+/-- F25: `PageCache::new` with `page_cache_size = 0` panicked before the repair -/
+theorem PageCache.new_size0_panics_f25 (dbg : Bool) (root : Option (Entry P)) (n fl : Nat) (h1 : 1 ≤ n) (h64 : n ≤ 64) :
+    ∃ m, PageCache.new { f25ZeroLimitUnwrap := true } dbg root n 0 fl = .panic m := by
+  obtain ⟨m, hm⟩ := makeShardsPages_zero_f25 (P := P) n 0 h1 h64 (by omega)
   exact ⟨m, by simp only [PageCache.new, makeShards, cachePageLimit_ok dbg 0 (by simp [usizeMax]), hm]⟩
 
 theorem freshShards_length (n c : Nat) : (freshShards (P := P) n c).length = n := by simp [freshShards]
 
-theorem freshShards_budget (n c : Nat) (h1 : 1 ≤ n) (h64 : n ≤ 64) :
+theorem freshShards_limit_pos (n c : Nat) (s : Shard P) (hs : s ∈ freshShards n c) : 1 ≤ s.pageLimit := by
+  simp only [freshShards, List.mem_map] at hs
+  obtain ⟨i, _, rfl⟩ := hs
+  simp only [shardLimit]
+  split <;> omega
+
+/-- with at least one page per root child the limits add up to the budget rounded down to a multiple of 64 pages -/
+theorem freshShards_budget (n c : Nat) (h1 : 1 ≤ n) (h64 : n ≤ 64) (hc : 1 ≤ c) :
     ((freshShards (P := P) n c).map (·.pageLimit)).sum = c * 64 := by
   have htab := cacheTable n h1 h64
   simp only [cacheTableOk, Bool.and_eq_true, List.all_eq_true, List.mem_range, decide_eq_true_eq,
     beq_iff_eq] at htab
   have hsum := htab.1.2
+  have hcnt := htab.1.1.2
   simp only [freshShards, List.map_map, Function.comp_def]
-  have : (List.range n).map (fun i => c * (Shards.region n i).2) =
+  have : (List.range n).map (fun i => shardLimit c (Shards.region n i).2) =
       ((List.range n).map fun i => (Shards.region n i).2).map (fun x => c * x) := by
-    simp [List.map_map, Function.comp_def]
+    rw [List.map_map]
+    apply List.map_congr_left
+    intro i hi
+    have := hcnt i (List.mem_range.mp hi)
+    have hne : c * (Shards.region n i).2 ≠ 0 := Nat.mul_ne_zero (by omega) (by omega)
+    simp [shardLimit, hne]
   rw [this, sum_map_mul, hsum]
+
+/-- below one page per root child (`page_cache_size = 0`): one page per shard -/
+theorem freshShards_budget_zero (n : Nat) : ((freshShards (P := P) n 0).map (·.pageLimit)).sum = n := by
+  simp only [freshShards, List.map_map, Function.comp_def, shardLimit, Nat.zero_mul, if_true]
+  induction n with
+  | zero => rfl
+  | succ k ih => rw [List.range_succ, List.map_append, List.sum_append, ih]; simp
 
 theorem freshShards_view (n c fl : Nat) (root : Option (Entry P)) (id : PageId) :
     ({ shards := freshShards n c, root := root, fixedLevels := fl } : PageCache P).view id =
